@@ -391,6 +391,123 @@ class _FlowAliases(dict):
         return self.per_node.get(id(node), self)
 
 
+def fuse_generator_loops(proj, fn):
+    """`for T in G(args): BODY`, G a generator function of the package whose every `yield E` ends an iteration of G's own loop
+    (or of G's body) -> G's statements with each `yield E` replaced by `T = E; BODY` (loop fusion): the producer's reads and
+    skips and the consumer's writes are one loop again.  Returns a FuncInfo with the fused body (the original untouched), or
+    `fn` itself when nothing can be fused soundly (BODY breaks, G returns a value / has several frames, names clash)."""
+    def generator_of(call):
+        f = call.func
+        target = None
+        if isinstance(f, ast.Attribute) and isinstance(f.value, ast.Name):
+            owner = None
+            if fn.cls is not None and f.value.id in ("self", "cls", fn.self_name or ""):
+                owner = fn.cls
+            else:
+                r = proj.resolve_name(fn.module, f.value.id)
+                owner = r[1] if (r and r[0] == "class") else None
+            m = owner.lookup(f.attr) if owner is not None else None
+            target = m[2] if (m and m[1] == "method") else None
+        elif isinstance(f, ast.Name):
+            r = proj.resolve_name(fn.module, f.id)
+            target = r[1] if (r and r[0] == "func") else None
+        if target is None or target.node is fn.node:
+            return None
+        ys = [x for x in ast.walk(target.node) if isinstance(x, (ast.Yield, ast.YieldFrom))]
+        if not ys or any(isinstance(x, ast.YieldFrom) for x in ys):
+            return None
+        if any(isinstance(x, ast.Return) and x.value is not None for x in ast.walk(target.node)):
+            return None
+        if any(isinstance(x, (ast.FunctionDef, ast.Lambda)) for st in target.node.body for x in ast.walk(st)):
+            return None
+        a = target.node.args
+        if a.vararg or a.kwarg or call.keywords or any(isinstance(x, ast.Starred) for x in call.args):
+            return None
+        return target
+
+    def fuse(loop):
+        if loop.orelse or not isinstance(loop.iter, ast.Call):
+            return None
+        if any(isinstance(x, ast.Break) for st in loop.body for x in ast.walk(st)):
+            return None
+        G = generator_of(loop.iter)
+        if G is None:
+            return None
+        params = [x.arg for x in G.node.args.posonlyargs + G.node.args.args]
+        if G.kind in ("method", "classmethod") and params:
+            params = params[1:]
+        if len(params) != len(loop.iter.args):
+            return None
+        taken = {x.id for x in ast.walk(fn.node) if isinstance(x, ast.Name)} | {x.arg for x in ast.walk(fn.node) if isinstance(x, ast.arg)}
+        own = {x.id for x in ast.walk(G.node) if isinstance(x, ast.Name) and isinstance(x.ctx, (ast.Store, ast.Del))} | set(params)
+        ren = {nm: nm + "__g" for nm in own if nm in taken}
+        body = copy.deepcopy([st for st in G.node.body if not (isinstance(st, ast.Expr) and isinstance(st.value, ast.Constant))])
+
+        class R(ast.NodeTransformer):
+            def visit_Name(self, x):
+                return ast.copy_location(ast.Name(id=ren[x.id], ctx=x.ctx), x) if x.id in ren else x
+
+        body = [R().visit(st) for st in body]
+        ok = [True]
+
+        class Y(ast.NodeTransformer):
+            def visit_Expr(self, st):
+                if isinstance(st.value, ast.Yield):
+                    val = st.value.value if st.value.value is not None else ast.Constant(value=None)
+                    bind = ast.copy_location(ast.Assign(targets=[copy.deepcopy(loop.target)], value=val, lineno=st.lineno), st)
+                    return [bind] + copy.deepcopy(loop.body)
+                return st
+
+            def generic_visit(self, node):
+                # a yield that is not the last statement of its block would need the consumer's `continue` re-routed
+                for fld in ("body", "orelse", "finalbody"):
+                    blk = getattr(node, fld, None)
+                    if isinstance(blk, list):
+                        for i, st in enumerate(blk):
+                            if isinstance(st, ast.Expr) and isinstance(st.value, ast.Yield) and i != len(blk) - 1:
+                                ok[0] = False
+                return super().generic_visit(node)
+
+        if any(isinstance(x, ast.Yield) and not any(isinstance(st, ast.Expr) and st.value is x for st in ast.walk(ast.Module(body=body, type_ignores=[])))
+               for st0 in body for x in ast.walk(st0)):
+            return None  # a yield used as an expression
+        mod = Y().visit(ast.Module(body=body, type_ignores=[]))
+        if not ok[0]:
+            return None
+        # the consumer's `continue` must land on the producer's loop: every yield sits (last) in a loop body or at top level
+        pre = [ast.copy_location(ast.Assign(targets=[ast.Name(id=ren.get(prm, prm), ctx=ast.Store())], value=copy.deepcopy(arg), lineno=loop.lineno), loop)
+               for prm, arg in zip(params, loop.iter.args) if not (isinstance(arg, ast.Name) and arg.id == ren.get(prm, prm))]
+        return pre + mod.body
+
+    class F(ast.NodeTransformer):
+        done = False
+
+        def visit_For(self, node):
+            self.generic_visit(node)
+            out = fuse(node)
+            if out is None:
+                return node
+            F.done = True
+            return out
+
+        def visit_FunctionDef(self, node):
+            if node is not new:
+                return node
+            self.generic_visit(node)
+            return node
+
+    if not any(isinstance(x, ast.For) and isinstance(x.iter, ast.Call) for x in ast.walk(fn.node)):
+        return fn
+    new = copy.deepcopy(fn.node)
+    F.done = False
+    new = F().visit(new)
+    if not F.done:
+        return fn
+    ast.fix_missing_locations(new)
+    key = ("fused", fn)
+    return FuncInfo(name=fn.name, module=fn.module, node=new, cls=fn.cls, kind=fn.kind, prop=fn.prop)
+
+
 class RobustWriterTables(WriterTables):
     """sa/tables.py's route table, completed for a dispatch by COMPUTED NAME: `writer = getattr(cls, f"write_{attribute}", None)`,
     called under whatever guard (`attribute in KEY_MAP and writer is not None`).  The attribute strings such a look-up can
@@ -401,6 +518,32 @@ class RobustWriterTables(WriterTables):
     def _dispatch(self):
         super()._dispatch()
         self._computed_name_dispatch()
+
+    def _skip(self):
+        """The skip list of the fallback sink, read on the function with a producer generator fused back into its loop
+        (`for key, value in cls.iter_attributes(entity)` with the reads and skips inside the generator)."""
+        fn = self.writer.methods.get("write_attributes")
+        if fn is None:
+            raise AnalysisError("anchor H5Writer.write_attributes not found")
+        fused = fuse_generator_loops(self.p, fn)
+        if fused is fn:
+            return super()._skip()
+        from ..tables import const_seq
+
+        self.skip_keys = []
+        loops = [n for n in ast.walk(fused.node) if isinstance(n, ast.For) and "attribute_map" in unparse(n.iter)
+                 and isinstance(n.target, ast.Tuple) and len(n.target.elts) == 2 and isinstance(n.target.elts[0], ast.Name)]
+        if not loops:
+            raise AnalysisError("H5Writer.write_attributes: loop over attribute_map not found")
+        loop = loops[-1]
+        keyvar = loop.target.elts[0].id
+        for n in ast.walk(loop):
+            if isinstance(n, ast.If) and any(isinstance(s_, ast.Continue) for s_ in n.body):
+                for c in ast.walk(n.test):
+                    if isinstance(c, ast.Compare) and isinstance(c.left, ast.Name) and c.left.id == keyvar and isinstance(c.ops[0], ast.In):
+                        seq = const_seq(self.p, self.writer_mod, c.comparators[0], self.writer)
+                        if seq is not None:
+                            self.skip_keys += list(seq)
 
     def _computed_name_dispatch(self):
         from ..kinds import reach
@@ -538,8 +681,25 @@ class RobustPersistEngine(PersistEngine):
             self._memo[key] = self._flow_aliases(fn, K)
         return self._memo[key]
 
+    def _insensitive_aliases(self, fn, K):
+        """sa/persist.py's flow-insensitive alias map, made to terminate: that fixpoint re-binds a name every time it meets an
+        assignment from a different field (`c = self.a` in one branch, `c = self.b` in the other flips for ever); here a
+        name keeps the first field found and the iteration only goes on while NEW names appear."""
+        sn = fn.self_name
+        out: dict = {}
+        changed = True
+        while changed:
+            changed = False
+            for n in ast.walk(fn.node):
+                if isinstance(n, ast.Assign) and len(n.targets) == 1 and isinstance(n.targets[0], ast.Name) and n.targets[0].id not in out:
+                    f = self._root_field(n.value, sn, out, K)
+                    if f and f[0] == "self":
+                        out[n.targets[0].id] = f[1]
+                        changed = True
+        return out
+
     def _flow_aliases(self, fn, K):
-        base = super()._aliases(fn, K)
+        base = self._insensitive_aliases(fn, K)
         if not base:
             return base
         sn = fn.self_name
